@@ -185,6 +185,46 @@ def flow_symwalk(ctx, acts=None, mode="both", nreg=2, k=4, rescale=True, groups=
         ctx.samples.append({"sym_transition": trans[len(trans) // 2]})
 
 
+def flow_sympair(ctx, acts=None, mode="both", k=1, kg=2, label="sympair"):
+    """R: TLC explores all interleavings of the symbolic pairing machine (mutations of P and Q, Prepare, the three entry
+    points, prepared pairings directly and through clone(), Gt arithmetic); the driver executes every transition."""
+    t0 = time.time()
+    cfg = f"{BUILD}/tr/{ctx.pid}-{label}.cfg"
+    os.makedirs(os.path.dirname(cfg), exist_ok=True)
+    with open(cfg, "w") as f:
+        f.write(f"CONSTANTS K = {k}\nKG = {kg}\nScalars <- MCScalars\nINIT Init\nNEXT Next\nINVARIANT TypeOK\nCHECK_DEADLOCK FALSE\n")
+    o, rc, dt = run_tlc("MC_SymPair", cfg=cfg, workers=4, timeout=3600, xmx="8g", tag=ctx.pid + "-sym")
+    sg, sd = tlc_counts(o)
+    if rc != 0 or "No error has been found" not in o:
+        raise ToolError("SymPair model check failed:\n" + o[-2000:])
+    trans = tlc_user_lines(o, "T")
+    if acts is not None:
+        trans = [t for t in trans if t["act"] in acts]
+    tfile = f"{ctx.dir}/{label}.trans"
+    with open(tfile, "w") as f:
+        for t in trans:
+            f.write(json.dumps(t) + "\n")
+    binp = build_harness("release")
+    outp = f"{ctx.dir}/{label}-walk"
+    r = sh([binp, "sympair", "--out", outp, "--in", tfile, "--table", table_file(), "--mode", mode, "--seed", str(ctx.seed)], timeout=7200, check=False)
+    if r.returncode != 0:
+        raise ToolError(f"sympair failed: {r.stdout[-1500:]}")
+    res = json.load(open(outp + ".result.json"))
+    ctx.states += sd
+    ctx.transitions += sg
+    ctx.traces += res["constructive_executed"] + res["walk_executed"]
+    for m in res["first_mismatches"]:
+        act = m.get("act", ["?"])[0] if isinstance(m.get("act"), list) else "?"
+        ctx.violations.append({"flow": "R", "suite": "sympair", "op": f"sympair.{act}", "why": m.get("why", "mismatch"),
+                               "event": {"op": f"sympair.{act}", "transition": m},
+                               "params": {"sympair": True, "acts": sorted(acts) if acts else None, "mode": mode, "k": k, "kg": kg, "seed": ctx.seed}})
+    rr = dict(res)
+    rr.pop("first_mismatches", None)
+    ctx.flows.append(dict(flow="R", model="SymPair", tlc_states_generated=sg, tlc_distinct_states=sd, wall_s=round(time.time() - t0, 1), **rr))
+    if len(ctx.samples) < 6 and trans:
+        ctx.samples.append({"sympair_transition": trans[len(trans) // 3]})
+
+
 # ------------------------------------------------------------------------------------------------ flow: Level-B / generic model check
 def flow_model(ctx, module, cfg=None, workers=8, timeout=1200, xmx="6g", label=None, must_hold=True, consts=None):
     """Model-check a specification module with TLC. A failure is reported as MODEL-FAIL in the evidence (and makes the
@@ -241,7 +281,7 @@ def levelb_sqrt(ctx):
 
 # ------------------------------------------------------------------------------------------------ properties
 def p_C06(ctx):
-    flow_trace(ctx, "fp", 40000, 400000, chunk=6000)
+    flow_trace(ctx, "fp", 200000, 600000, chunk=12000)
     levelb_mont(ctx)
 
 
@@ -303,6 +343,11 @@ def p_C11(ctx):
 def p_C01(ctx):
     flow_trace(ctx, "pairing", 330, 6000, chunk=24, extra=["--focus", "laws"])
     flow_programs(ctx, "gmachine", 6, 28, 200, 1200, extra=["--focus", "pair"], label="gm-pair")
+    pair_acts = {"pair", "gtsquare", "gtinv", "gtpow", "gtmulpair"}
+    if ctx.quick():
+        flow_sympair(ctx, acts=pair_acts, mode="constructive", k=1, kg=2)
+    else:
+        flow_sympair(ctx, acts=pair_acts, mode="constructive", k=2, kg=4)
 
 
 def p_C02(ctx):
@@ -312,6 +357,10 @@ def p_C02(ctx):
 def p_C03(ctx):
     flow_trace(ctx, "pairing", 420, 8000, chunk=30, extra=["--focus", "agree"])
     flow_programs(ctx, "gmachine", 6, 28, 250, 1500, extra=["--focus", "prep"], label="gm-prep")
+    if ctx.quick():
+        flow_sympair(ctx, mode="walk", k=1, kg=2)
+    else:
+        flow_sympair(ctx, mode="both", k=2, kg=4)
 
 
 def p_C16(ctx):
@@ -516,6 +565,15 @@ def replay_file(path):
             flow_trace(ctx, p["suite"], p["n"], p["n"], profile=p.get("profile", "release"), extra=p.get("extra", ()))
         same = [v for v in ctx.violations if v.get("op") == r.get("op")]
         print(f"replay of {path}: {len(ctx.violations)} mismatching event(s), {len(same)} with op {r.get('op')}")
+        if same:
+            print(f"VIOLATION property={pid} replay={path}")
+            return 1
+        return 0
+    if r.get("flow") == "R" and p.get("sympair"):
+        ctx = Ctx(pid + "-replay", "quick", p.get("seed", 1))
+        flow_sympair(ctx, acts=set(p["acts"]) if p.get("acts") else None, mode=p.get("mode", "both"), k=p.get("k", 1), kg=p.get("kg", 2))
+        same = [v for v in ctx.violations if v.get("op") == r.get("op")]
+        print(f"replay of {path}: {len(ctx.violations)} mismatching transition(s), {len(same)} with action {r.get('op')}")
         if same:
             print(f"VIOLATION property={pid} replay={path}")
             return 1
